@@ -44,4 +44,13 @@ def exDecl : LDecl :=
 
 def exDoc : LDoc := { bom := true, decl := some exDecl, items := exItems, trail := ['\n'] }
 
+/-- The text of `exDoc` (the line quoted in the header). -/
+def exText : Str :=
+  ['\uFEFF', '<', '?', 'x', 'm', 'l', ' ', 'v', 'e', 'r', 's', 'i', 'o', 'n', ' ', '=', ' ', '\'', '1', '.', '0', '\'',
+   ' ', 'e', 'n', 'c', 'o', 'd', 'i', 'n', 'g', '=', '"', 'U', 'T', 'F', '-', '8', '"', ' ', '?', '>', '\n',
+   '<', '!', '-', '-', 'c', '-', '-', '>', '\n',
+   '<', 'p', ':', 'a', '\n', '\t', 'x', 'm', 'l', 'n', 's', ':', 'p', '=', '\'', 'u', '\'',
+   ' ', 'k', ' ', '=', '\r', '\n', '"', 'v', '&', 'a', 'm', 'p', ';', '"', '\t', '>',
+   '<', 'b', '\n', '/', '>', 't', '<', '/', 'p', ':', 'a', '\n', '>', '\n']
+
 end XotModel.Witness
